@@ -122,6 +122,8 @@ def make_problem(spec):
             return y + sigma * np.random.randn()
         if noise == "specified":
             s = sigma * (1.0 + 0.5 * abs(math.sin(float(np.sum(x)))))
+            if spec.get("sdjitter"):      # the reported SD is itself an estimate: it varies between calls at the same x
+                s *= 1.0 + 0.3 * np.random.rand()
             return y + s * np.random.randn(), s
         return y
 
